@@ -4,6 +4,7 @@ import (
 	"fmt"
 	"go/types"
 	"math/big"
+	"reflect"
 	"strings"
 
 	"golang.org/x/tools/go/ssa"
@@ -567,11 +568,11 @@ func (e *Engine) registerStubs() {
 	// ---- the network as seen by the exchanges (stub set "kdcstub"): reply bytes, a transport error, or a KRB-ERROR ----
 	sname := "(*github.com/jcmturner/gokrb5/v8/client.Client).sendToKDC"
 	e.stub("kdcstub", sname, &stubSpec{custom: `
-	zzverif.StubArgs("`+sname+`", cl, b, realm)
+	zzverif.StubArgs("` + sname + `", cl, b, realm)
 	var zzrb []byte
 	var zzcode int32
 	var zzcrealm string
-	zzerr := zzverif.Stub("`+sname+`", &zzrb, &zzcode, &zzcrealm)
+	zzerr := zzverif.Stub("` + sname + `", &zzrb, &zzcode, &zzcrealm)
 	if zzerr != nil && zzcode >= 0 {
 		return zzrb, messages.KRBError{ErrorCode: zzcode, CRealm: zzcrealm}
 	}
@@ -711,12 +712,30 @@ func (e *Engine) registerStubs() {
 			if r.branch(dec) {
 				v := val
 				nv := r.force(&v)
-				// a decoder never touches the receiver's unexported pointer-like fields (settings, context, ...)
+				// a decoder never touches the receiver's unexported pointer-like fields (settings, context, ...),
+				// and it leaves an OPTIONAL field alone when the element is absent from the input: if the
+				// receiver already holds something there, whether it survives is part of what the input decides
 				if sv, ok := nv.(StructV); ok {
 					if st, ok := typ.Underlying().(*types.Struct); ok {
 						old := r.load(p, lbl("havoc "+name)).(StructV)
+						memo := r.ghost[mk].([]Value)
 						for i := 0; i < st.NumFields(); i++ {
 							if !st.Field(i).Exported() && isPtrLike(st.Field(i).Type()) {
+								sv[i] = old[i]
+								continue
+							}
+							tag, _ := reflect.StructTag(st.Tag(i)).Lookup("asn1")
+							if !strings.Contains(tag, "optional") || isZeroVal(old[i]) {
+								continue
+							}
+							for len(memo) < 2+st.NumFields() {
+								memo = append(memo, nil)
+							}
+							if memo[2+i] == nil {
+								memo[2+i] = Eq(r.hvar(1), BVu(1, 1))
+								r.ghost[mk] = memo
+							}
+							if r.branch(memo[2+i].(*Term)) { // absent
 								sv[i] = old[i]
 							}
 						}
@@ -730,6 +749,41 @@ func (e *Engine) registerStubs() {
 			return r.errNew(fr, "stub: decode error")
 		})
 	}
+}
+
+// isZeroVal: the value is syntactically the zero value of its type (an unforced lazy value is not: it is arbitrary).
+func isZeroVal(v Value) bool {
+	switch x := v.(type) {
+	case nil:
+		return true
+	case *Term:
+		return x.IsConst() && x.isZero()
+	case *StrV:
+		return x.opaque == nil && len(x.b) == 0
+	case *SliceV:
+		return x.arr == nil || x.len == 0
+	case StructV:
+		for _, f := range x {
+			if !isZeroVal(f) {
+				return false
+			}
+		}
+		return true
+	case ArrayV:
+		for _, f := range x {
+			if !isZeroVal(f) {
+				return false
+			}
+		}
+		return true
+	case *PtrV:
+		return x.obj == nil
+	case *IfaceV:
+		return x.t == nil
+	case *MapV:
+		return x.isNil
+	}
+	return false
 }
 
 func isPtrLike(t types.Type) bool {
